@@ -26,6 +26,10 @@ CLAIMED = {
   text="Deductive proof over the real ProxyHandler.__init__/_handle_async/handle, for every request path/query and every prefix/strip/upstream configuration with a non-empty upstream authority: exactly one fetch, with follow_redirects=False, of the URL upstream ++ map_path(prefix, strip, path) ++ [?query] (map_path from the statement: prefix removed only on a segment boundary, re-rooted at '/'); that URL is 'gemini://' ++ A ++ R with A the configured upstream's authority and R empty or starting with / ? #, so host and port are the upstream's; the upstream response object is returned unchanged and every exception of the fetch becomes 43; __init__ establishes the class invariant and refuses non-gemini upstreams.",
   note="Assumed: E7 (host/port are functions of the authority), contract of GeminiClient.get (connects only to the URL's host/port: C16/C03), request.path starts with '/' without ?# (post of parse_url: C19); precondition that the configured upstream has a non-empty authority.",
   technique="contract-based deductive verification: pyvc VCs over the real coroutine, string obligations by z3 + cvc5", ref="6/C17"),
+ "C05": dict(
+  text="Deductive proof over the real CertificateAuth._extract_path/_find_matching_rule/process_request and ServerConfig.get_certificate_auth_config, for rule lists of any length, any URL and any fingerprint or none: the path used for the lookup is canon(url) (percent-decoded, dot-segment- and slash-normalised location); the rule returned is the FIRST whose canonical prefix covers it on a segment boundary (inductive loop invariant); allow <=> no rule covers or the first covering rule admits (required certificate present, fingerprint in the allow-list when one is given, so an empty list admits nobody); refusal is one '60' line without a certificate and one '61' line otherwise; the configuration layer produces one rule per TOML table, field by field, with an allow-list exactly when the key is present.",
+  note="Assumed: E7 urlsplit/unquote and E8 normpath as uninterpreted functions with 'normpath(/ ++ rel) is the location pathlib resolves to in a symlink-free tree' (the quantifier of C05); that the static handler serves root/unquote(path).lstrip('/') is decided under C02; fingerprint provenance under C04. The bounded replay bank (real files, real StaticFileHandler) ties canon to what is actually served.",
+  technique="contract-based deductive verification: pyvc VCs with quantified first-match invariant, z3", ref="6/C05"),
 }
 NA_REASON = "check not built yet (work in progress; see DESIGN.md section 6 for the plan)"
 
